@@ -496,7 +496,11 @@ class ReviseAnno:
             dataframe ():
             filename (str): a string of the filename to write.
         """
-        dataframe.to_csv(filename, header=True, sep="\t", index=False)
+        # NB write under a temporary name and rename, a reader must never
+        # find a partially written file under the final name
+        tmp_filename = filename + ".tmp"
+        dataframe.to_csv(tmp_filename, header=True, sep="\t", index=False)
+        os.replace(tmp_filename, filename)
 
     @staticmethod
     def _read(filename):
